@@ -39,9 +39,9 @@ theorem liveOps_norm (m : Mesh) :
   simp [liveOps]
 
 theorem render_congr (a b : Mesh) (h1 : a.lists = b.lists) (h2 : a.modified = b.modified) (h3 : a.dflt = b.dflt)
-    (h4 : a.merged = b.merged) : render a = render b := by
+    (h4 : a.merged = b.merged) (h6 : a.geometry = b.geometry) : render a = render b := by
   unfold render
-  rw [h1, h2, h3, h4]
+  rw [h1, h2, h3, h4, h6]
 
 /-- `write` once the implicit assembly is done -/
 def writeFrom (x : Mesh) : Mesh × Except Err String :=
@@ -53,10 +53,10 @@ def writeFrom (x : Mesh) : Mesh × Except Err String :=
 theorem write_eq (m : Mesh) : write m = writeFrom (if isAssembled m then m else assemble m) := rfl
 
 theorem writeFrom_congr (x y : Mesh) (h1 : x.lists = y.lists) (h2 : x.modified = y.modified) (h3 : x.dflt = y.dflt)
-    (h4 : x.merged = y.merged) : (writeFrom x).2 = (writeFrom y).2 := by
+    (h4 : x.merged = y.merged) (h6 : x.geometry = y.geometry) : (writeFrom x).2 = (writeFrom y).2 := by
   have hi : isAssembled x = isAssembled y := by simp [isAssembled, h1]
   have hg : (gradeBlocks x).lists = (gradeBlocks y).lists := by simp [gradeBlocks, h1]
-  have hr := render_congr (gradeBlocks x) (gradeBlocks y) hg h2 h3 h4
+  have hr := render_congr (gradeBlocks x) (gradeBlocks y) hg h2 h3 h4 h6
   unfold writeFrom
   rw [hi, hg, hr]
   split
@@ -64,7 +64,7 @@ theorem writeFrom_congr (x y : Mesh) (h1 : x.lists = y.lists) (h2 : x.modified =
   · split <;> rfl
 
 theorem written_congr (a b : Mesh) (h1 : a.lists = b.lists) (h2 : a.modified = b.modified) (h3 : a.dflt = b.dflt)
-    (h4 : a.merged = b.merged) (h5 : liveOps a = liveOps b) : written a = written b := by
+    (h4 : a.merged = b.merged) (h5 : liveOps a = liveOps b) (h6 : a.geometry = b.geometry) : written a = written b := by
   have hs : slavePatches a = slavePatches b := by simp [slavePatches, h4]
   have hal : (assemble a).lists = (assemble b).lists := by rw [assemble_lists, assemble_lists, h1, h5, hs]
   have hia : isAssembled a = isAssembled b := by simp [isAssembled, h1]
@@ -83,6 +83,9 @@ theorem written_congr (a b : Mesh) (h1 : a.lists = b.lists) (h2 : a.modified = b
   · split
     · exact h4
     · exact h4
+  · split
+    · exact h6
+    · exact h6
 
 /-! ### Canon -/
 
@@ -183,6 +186,7 @@ def Step.quiet : Step → Bool
   | .modify _ _ _ => true
   | .setDefault _ _ => true
   | .write => true
+  | .addGeometry _ _ => true
   | _ => false
 
 theorem canon_step (t : Mesh) (s : Step) (hq : s.quiet = true) (h : Canon t) : Canon (step t s) := by
@@ -190,6 +194,7 @@ theorem canon_step (t : Mesh) (s : Step) (hq : s.quiet = true) (h : Canon t) : C
   · exact canon_modify t _ _ _ h
   · exact canon_setDefault t _ _ h
   · exact canon_write t h
+  · exact h
 
 theorem canon_run (t : Mesh) (q : List Step) (hq : ∀ s ∈ q, s.quiet = true) (h : Canon t) : Canon (run t q) := by
   induction q generalizing t with
